@@ -38,6 +38,7 @@ def bounds(tier):
 
 PATHS = [(">s1>s2", 30, 2, 12), (">chr1:0-10>hA#1#c:5-25", 30, 2, 12), ("chr1", 1000, 102, 112)]
 OPTS = [[], ["cg:Z:10="], ["tp:A:P", "cg:Z:4=1X5="], ["tp:A:P", "cg:Z:10=", "NM:i:0"], ["sp:Z:chr1:1000-2000 50%", "cg:Z:10="],
+        ["ds:i:17", "cg:i:3", "cg:Z:10="],  # tag names the parser treats specially (ds:Z, cg:Z) with another type: ordinary fields
         ["ps:Z:chr9-77", "ht:Z:H2", "cg:Z:10="]]  # the last: the output of an earlier phase run is phased again
 STATES = ["H1", "H2", "none", "missing", "twice"]
 
